@@ -115,3 +115,13 @@ chk("C14", "stateful (pool-based) generated derivation scripts with a per-step s
     "derived content must be what the operation denotes; column expressions equal the element-wise numpy computation.",
     "trusted: CPython 3.12, numpy, Hypothesis. Column lists name each column once; exceptions from a derivation are 'no table produced' "
     "(counted). Bounded search: <= 12 pool members, <= 25 steps.", "DESIGN.md 4/C14")
+
+chk("C16", "property-based testing against construction-known factorizations, analytic Jacobians and an independent evaluation of the user function",
+    "SVD.lstsq on matrices built as U diag(s) V^T (shapes 1..6 x 1..6, rank deficient, scaled, rcond and cutoff settings given to the "
+    "constructor or the call) must equal the sum over the kept singular triplets computed from the construction factors (1e-9 relative); "
+    "consistent well-conditioned linear problems (square / tall / wide, knob and target weights, Broyden on / off) must be solved by the "
+    "first step() up to finite-difference rounding and by solve(); weight and rescale_x mappings must be mutual inverses in both "
+    "directions; every merit-function view (return_scalar x rescale_x) must return the value and Jacobian of that same view as derived "
+    "analytically (weights, chain rule, 2 f^T J).",
+    "trusted: CPython 3.12, numpy (QR used to draw orthonormal factors), Hypothesis; the harness' analytic Jacobians. Singular values are "
+    "kept a factor 2 away from the rcond threshold and 1.5 apart. Bounded search.", "DESIGN.md 4/C16")
